@@ -121,8 +121,21 @@ func EncodeMessage(m message.Message, v ver) (*Encoding, error) {
 	return w.Done(), nil
 }
 
+// Variants selects specification-legal encodings that differ from the library's own choices (decode direction only).
+type Variants struct {
+	PerColumnTableSpec bool // never use the global table spec, even when all columns share a table
+	V2TextCode         bool // protocol v2: write varchar columns with type option 0x000A (Text) instead of 0x000D
+	TrueByte           byte // byte written for a true <data_present> (0 = the usual 1); any non-zero value denotes true
+}
+
+// Variant is consulted by the encoder; tests set it under their own lock and reset it afterwards.
+var Variant Variants
+
 func boolByte(b bool) byte {
 	if b {
+		if Variant.TrueByte != 0 {
+			return Variant.TrueByte
+		}
 		return 1
 	}
 	return 0
@@ -589,7 +602,7 @@ func rowsMetadata(w *W, m *message.RowsMetadata, v ver) error {
 	global := false
 	if len(m.Columns) == 0 {
 		flags |= 0x04
-	} else if sameTable(m.Columns) {
+	} else if sameTable(m.Columns) && !Variant.PerColumnTableSpec {
 		flags |= 0x01
 		global = true
 	}
@@ -638,7 +651,7 @@ func variablesMetadata(w *W, m *message.VariablesMetadata, v ver) error {
 		m = &message.VariablesMetadata{}
 	}
 	var flags uint32
-	global := sameTable(m.Columns)
+	global := sameTable(m.Columns) && !Variant.PerColumnTableSpec
 	if global {
 		flags |= 0x01
 	}
@@ -704,6 +717,9 @@ func option(w *W, t datatype.DataType, v ver) error {
 			return fmt.Errorf("ref: type %#x is not defined for version %d", code, v)
 		case code == 0x0015 && !(v == 5 || isDse(v)):
 			return fmt.Errorf("ref: duration is not defined for version %d", v)
+		}
+		if code == 0x000D && v == 2 && Variant.V2TextCode {
+			code = 0x000A
 		}
 		w.Short(code, "code")
 	case *datatype.Custom:
